@@ -17,6 +17,7 @@ wrapper model:
     the end of the call (not `let _ =`)                              -> `trackBeforePayload`, `guardHeld`
   * the e_tag recipes: is the per-commit seed (generation / base nonce) hashed in?
                                                                      -> `putTagSeeded`, `completeTagSeeded`, `copyTagSeeded`
+  * `get_opts`: preconditions evaluated inside the stale-pointer retry loop            -> `getRecheckInRetry`
 
 Works on a comment-stripped copy and keys on call names and nesting, not on layout. A marker that is
 missing or ambiguous is an error (exit 1 with a one-line reason), never a default.
@@ -271,6 +272,26 @@ def main():
         r_del = pos(ren, r"\bdelete_object\s*\(", f"delete_object in {name}::rename_opts")
         rename_order = order_names([("copy", r_copy), ("deleteSource", r_del)], f"{name}::rename_opts")
         self_rename = re.search(r"if\s+from\s*==\s*to\b", ren) is not None and pos(ren, r"if\s+from\s*==\s*to\b", "x") < r_copy
+        # get_opts: are the read preconditions evaluated inside the stale-pointer retry loop, on the
+        # document resolved in that iteration (get_meta / check_get_preconditions per iteration,
+        # refresh_meta's answer not carried over)?
+        getf = fn_in(impl, "get_opts", f"impl ObjectStore for {name}")
+        glm = re.search(r"\bloop\s*\{", getf)
+        if not glm:
+            die(f"{name}::get_opts: the retry `loop` is gone")
+        glb = getf.index("{", glm.end() - 1)
+        gloop = getf[glb + 1:match_close(getf, glb)]
+        gbefore = getf[:glb]
+        if not re.search(r"\brefresh_meta\s*\(", gloop):
+            die(f"{name}::get_opts: no refresh_meta in the retry loop (stale-pointer retry gone)")
+        chk = re.search(r"\bcheck_get_preconditions\s*\(", gloop)
+        chk_before = re.search(r"\bcheck_get_preconditions\s*\(", gbefore)
+        if not chk and not chk_before:
+            die(f"{name}::get_opts: check_get_preconditions is not called")
+        chk_depth = (gloop[:chk.start()].count("{") - gloop[:chk.start()].count("}")) if chk else -1
+        meta_in_loop = re.search(r"\bget_meta\s*\(", gloop) is not None
+        refresh_bound = re.search(r"=\s*self\s*\.\s*inner\s*\.\s*refresh_meta\s*\(", gloop) is not None
+        get_recheck = bool(chk) and chk_depth == 0 and meta_in_loop and not chk_before and not refresh_bound
         # e_tag recipes
         if name == "metaStore":
             put_seeded = re.search(r"hasher\s*\.\s*update\s*\(\s*generation\s*\.\s*as_bytes\s*\(\s*\)\s*\)", put) is not None
@@ -282,7 +303,7 @@ def main():
         wrappers[name] = dict(put=put_order, complete=complete_order, copy=copy_order, rename=rename_order,
                               track=track_first and mp_track_first and copy_track_first,
                               held=guard_held and copy_guard_held, put_seeded=put_seeded, mp_seeded=mp_seeded,
-                              copy_derive=copy_uses_derive, self_rename=self_rename)
+                              copy_derive=copy_uses_derive, self_rename=self_rename, get_recheck=get_recheck)
 
     # derive_copy_e_tag
     dce = fn_in(lib, "derive_copy_e_tag", "lib.rs")
@@ -351,6 +372,12 @@ def gcFloorSkip : Bool := {lean_bool(gc_floor_skip)}
 /-- per candidate: in-flight check, re-read of the commit point, delete -/
 def gcCandidateOrder : List GcCheck := {lean_list(gc_candidate)}
 
+/-- `get_opts`: every iteration of the stale-pointer retry loop resolves the document (`get_meta`) and
+evaluates `check_get_preconditions` on it — a retried read re-checks the caller's conditions
+against the re-resolved commit -/
+def getRecheckInRetry : Wrapper → Bool
+{per_wrapper("get_recheck", lean_bool)}
+
 /-- the commit point is re-read from the backend for every candidate (`true`), or once per key with the
 answer reused for the key's later candidates (`false`) -/
 def gcRecheckPerCandidate : Bool := {lean_bool(gc_recheck_per_candidate)}
@@ -394,6 +421,7 @@ theorem gen_self_rename_guard : ∀ w, selfRenameGuard w = true := by intro w; c
 theorem gen_gc_mark_first : gcMarkFirst = true := by decide
 theorem gen_gc_floor_skip : gcFloorSkip = true := by decide
 theorem gen_gc_candidate_order : gcCandidateOrder = [.inFlight, .recheck, .delete] := by decide
+theorem gen_get_recheck_in_retry : ∀ w, getRecheckInRetry w = true := by intro w; cases w <;> decide
 theorem gen_gc_recheck_per_candidate : gcRecheckPerCandidate = true := by decide
 theorem gen_track_before_payload : ∀ w, trackBeforePayload w = true := by intro w; cases w <;> decide
 theorem gen_guard_held : ∀ w, guardHeld w = true := by intro w; cases w <;> decide
